@@ -1,6 +1,7 @@
 (* C06: liquidation only of under-margined positions, with exact payouts.  Statements only. *)
 From MP.Model Require Import Prelude U128 SInt Feed Vamm VammOps Token World Engine Runtime.
-From MP.Proofs Require Import Tactics SIntFacts EngineArith CloseFacts LiqFacts LiqTxFacts Scenario.
+From MP.Proofs Require Import Tactics SIntFacts EngineArith CloseFacts LiqFacts LiqTxFacts.
+From MP.Model Require Import Scenario.
 
 (* Liquidate is accepted only if the liquidation ratio (spot/TWAP ratio, overridden by the oracle
    ratio when the spread limit is exceeded and it is higher) is not above the maintenance ratio,
